@@ -89,7 +89,16 @@ func loadState(db dbm.DB, key []byte) *State {
 	if *err != nil {
 		gcmn.Exit(gcmn.Fmt("Data has been corrupted or its spec has changed: %v\n", *err))
 	}
-	// TODO: ensure that buf is completely read.
+	// The proposers selected by IncrementAccum are cached, unserialized fields of the validator
+	// sets; Bytes() appends them so that a restarted node names the same proposer as the others.
+	if r.Len() > 0 {
+		cur := wire.ReadByteSlice(r, 0, n, err)
+		last := wire.ReadByteSlice(r, 0, n, err)
+		if *err == nil {
+			s.Validators.RestoreProposer(cur)
+			s.LastValidators.RestoreProposer(last)
+		}
+	}
 
 	return s
 }
@@ -178,6 +187,9 @@ func (s *State) Equals(s2 *State) bool {
 func (s *State) Bytes() []byte {
 	buf, n, err := new(bytes.Buffer), new(int), new(error)
 	wire.WriteBinary(s, buf, n, err)
+	// trailer, skipped by readers that stop after the state itself
+	wire.WriteByteSlice(s.Validators.ProposerAddress(), buf, n, err)
+	wire.WriteByteSlice(s.LastValidators.ProposerAddress(), buf, n, err)
 	if *err != nil {
 		gcmn.PanicCrisis(*err)
 	}
